@@ -684,6 +684,48 @@ pub fn scenario<C: MlsConfig>(rng: &mut Rng, mk: Mk<C>, out: &mut Out, exhaustiv
             }
         }
         out.cover.insert("insider".into());
+        // ---- re-attribution by an insider: A signs with its own key but names another member as the sender (fresh membership
+        // tag); C signs A's commit / A's Update as its own.  Every receiver other than the named sender must refuse; the named
+        // sender itself refuses a message "from itself".  (A Remove or Add re-signed by another member under its OWN name is a
+        // legitimate proposal of that member and is not generated.)
+        {
+            let idx = |i: usize| w.group(i).current_member_index();
+            let c = w.group(2).clone();
+            let mut cases: Vec<(String, MlsMessage, &MlsMessage, Vec<u8>)> = vec![];
+            for (who, target) in [("B", 1usize), ("C", 2usize)] {
+                if let Ok(m) = a.verif_reattribute(&cm, idx(target)) {
+                    cases.push((format!("insider-reattribute-commit-to-{who}"), m, &cm, cb.clone()));
+                }
+            }
+            if let Ok(m) = c.verif_reattribute(&cm, idx(2)) {
+                cases.push(("insider-reattribute-commit-taken-over-by-C".into(), m, &cm, cb.clone()));
+            }
+            if let Some(p) = prop.as_ref() {
+                let pb = p.to_bytes().unwrap_or_default();
+                if let Ok(m) = a.verif_reattribute(p, idx(1)) {
+                    cases.push(("insider-reattribute-update-to-B".into(), m, p, pb.clone()));
+                }
+                // (A's Update re-signed by C under C's own name is an authentic proposal of C with invalid content: the filter
+                // drops it at commit time — property C10, not a forgery)
+            }
+            if let Some(p) = prop2.as_ref() {
+                // C's Remove attributed to A, signed by C
+                let pb = p.to_bytes().unwrap_or_default();
+                if let Ok(m) = c.verif_reattribute(p, idx(0)) {
+                    cases.push(("insider-reattribute-remove-to-A".into(), m, p, pb));
+                }
+            }
+            for (label, m2, genuine, gb) in cases {
+                let b2 = m2.to_bytes().unwrap();
+                let is_commit = label.contains("-commit-");
+                for (ri, rname) in [(0usize, "A"), (1usize, "B"), (2usize, "C")] {
+                    let r = w.group(ri).clone();
+                    // after the refused forgery B and C must still accept A's genuine commit
+                    try_variant(&r, rname, genuine, &gb, &b2, &label, is_commit && ri != 0, None, out);
+                }
+            }
+            out.cover.insert("insider-reattribute".into());
+        }
     }
     forged_tree_cases(w.group(0), &w.members[newcomer].client, out);
     // ---- joiner side: Welcome, GroupInfo --------------------------------------------------------------------------------
